@@ -1236,6 +1236,12 @@ func (gen *Generator) GenerateSyntaxQuote(args []Sexp) error {
 	}
 	arg := args[0]
 
+	// unquoted expressions inside a template are not in tail position
+	if gen.Tail {
+		gen.Tail = false
+		defer func() { gen.Tail = true }()
+	}
+
 	// need to handle arrays, since they can have unquotes
 	// in them too.
 	switch aaa := arg.(type) {
